@@ -200,6 +200,11 @@ func (c *Conn) setLastErr(err error) {
 	c.lastErrLck.Unlock()
 }
 
+// ErrGoAway is returned for a request that was on a stream above the last one
+// the server said it had looked at when it sent GOAWAY. The server has not
+// processed it, so it is safe to send again on another connection.
+var ErrGoAway = errors.New("the server went away before processing the request")
+
 // ErrConnectionClosed is returned for requests handed to a connection that has
 // already been closed.
 var ErrConnectionClosed = errors.New("connection is closed")
@@ -289,6 +294,31 @@ func (c *Conn) loadReq(id uint32) (*Ctx, bool) {
 	c.reqLck.Unlock()
 
 	return ctx, ok
+}
+
+// takeReqsAbove takes the requests on streams above last off the table.
+func (c *Conn) takeReqsAbove(last uint32) (ids []uint32, ctxs []*Ctx) {
+	c.reqLck.Lock()
+	defer c.reqLck.Unlock()
+
+	for id, ctx := range c.reqQueued {
+		if id > last {
+			ids = append(ids, id)
+			ctxs = append(ctxs, ctx)
+
+			delete(c.reqQueued, id)
+		}
+	}
+
+	return ids, ctxs
+}
+
+// noReqs reports whether no request is waiting on the connection.
+func (c *Conn) noReqs() bool {
+	c.reqLck.Lock()
+	defer c.reqLck.Unlock()
+
+	return len(c.reqQueued) == 0
 }
 
 // takeAllReqs empties the table and returns what was in it, for resolving
@@ -837,7 +867,7 @@ func (c *Conn) readLoop() {
 func (c *Conn) dispatch(fr *FrameHeader) bool {
 	r, ok := c.loadReq(fr.Stream())
 	if !ok {
-		return false
+		return c.goneAway()
 	}
 
 	// A canceled or finished request has taken its Response back, so there is
@@ -865,7 +895,13 @@ func (c *Conn) dispatch(fr *FrameHeader) bool {
 		return true
 	}
 
-	return c.state == connStateClosed && fr.Stream() == c.closeRef
+	return c.goneAway()
+}
+
+// goneAway reports whether the server has sent GOAWAY and every request it
+// said it would still answer has been answered, so the connection can go.
+func (c *Conn) goneAway() bool {
+	return c.state == connStateClosed && c.noReqs()
 }
 
 func (c *Conn) writeRequest(ctx *Ctx) error {
@@ -974,6 +1010,24 @@ func (c *Conn) writeRequest(ctx *Ctx) error {
 	atomic.StoreUint32(&ctx.streamID, id)
 	c.queueReq(id, ctx)
 
+	// Counted from the moment it is on the table: whoever takes it off again,
+	// and that can be the read loop before the frame below has been written,
+	// counts it back down.
+	atomic.AddInt32(&c.openStreams, 1)
+
+	// A GOAWAY may have come in since CanOpenStream was asked. The read loop
+	// fails the streams above the server's last one when it sees it, but only
+	// the ones on the table at that moment.
+	if atomic.LoadUint32(&c.goAway) != 0 {
+		if c.takeReq(id) {
+			atomic.AddInt32(&c.openStreams, -1)
+		}
+
+		ReleaseHeaderField(hf)
+
+		return ErrNotAvailableStreams
+	}
+
 	if hasBody {
 		pb := &pendingBody{
 			ctx:    ctx,
@@ -1010,13 +1064,14 @@ func (c *Conn) writeRequest(ctx *Ctx) error {
 	if err != nil {
 		c.setLastErr(err)
 		// if we had any error, remove it from the reqQueued.
-		c.dequeueReq(id)
+		if c.takeReq(id) {
+			atomic.AddInt32(&c.openStreams, -1)
+		}
+
 		c.deletePending(id)
 
 		return err
 	}
-
-	atomic.AddInt32(&c.openStreams, 1)
 
 	if hasBody {
 		release()
@@ -1372,13 +1427,20 @@ loop:
 			// connection, so the client must move to a fresh one.
 			atomic.StoreUint32(&c.goAway, 1)
 
-			if ga.stream == 0 {
-				_ = c.c.Close()
-				err = ga
-			} else {
-				// wait for the streams to complete
-				c.closeRef = ga.stream
-				c.state = connStateClosed
+			// The streams up to the one it names are still going to be
+			// answered; the read loop carries on until they have been. The
+			// ones above it the server never looked at: they end here, and can
+			// be sent again elsewhere.
+			c.closeRef = ga.stream
+			c.state = connStateClosed
+
+			ids, ctxs := c.takeReqsAbove(ga.stream)
+			for i, ctx := range ctxs {
+				atomic.AddInt32(&c.openStreams, -1)
+				c.deletePending(ids[i])
+
+				ctx.markFinished()
+				ctx.resolve(ErrGoAway)
 			}
 
 			break loop
